@@ -17,6 +17,9 @@ CHECKS = {
  "C06": dict(cat="exploration", technique="descriptor invariants + per-(type,id) kernel sums vs harness-grouped original integrals + contract on common.integral_data",
    text="Seeded forms with random integral types/ids (ints, tuples, everywhere, repeated ids with different metadata, several forms per module, prisms) are compiled; offsets/ids invariants are read from the cffi struct, every declared (type,id) is executed for every entity and compared with the sum of the user's integrands grouped by the harness itself; metadata fields are compared with the form.",
    note="Every integral carries an explicit degree so the reference is independent of UFL's integral merging. Trusted: UFL lowering, basix.", ref="3/C06"),
+ "C05": dict(cat="exploration", technique="descriptor-driven packing vs oracle on original objects + NaN/Inf poisoning of disabled coefficient storage (bitwise)",
+   text="Forms whose integrals use different coefficient subsets, with coefficients removed by derivative/replace and constants created in shuffled order, are compiled; w/c are packed only from descriptor fields and compared with the oracle; every integral with a false enabled flag is re-executed with NaN/Inf/1e300 in that storage and must be bitwise unchanged.",
+   note="Trusted: UFL, basix. Converse (enabled => read) not claimed.", ref="3/C05"),
 }
 NA_REASON = "check not built yet in this round (runtime monitoring applies; see DESIGN.md section 3)"
 
